@@ -217,7 +217,7 @@ def build():
         machine=MACHINE, player=Opt(ObjS("Player", C.classes["Player"].fields)), player_list=ObjS("PlayerList"),
         num_players=Int, balls_per_game=Int, max_players=Int, ending=Bool, slam_tilted=Bool, tilted=Bool,
         _balls_in_play=Int, _end_ball_event=ObjS("AsyncEvent"), _at_least_one_player_event=ObjS("AsyncEvent"),
-        name=Str),
+        name=Str, _player_add_in_progress=Bool),
         invariants=[("G1: balls in play stay between zero and the number of balls known",
                      "0 <= self._balls_in_play <= self.machine.ball_controller.num_balls_known"),
                     ("G2: the players are numbered 1..num_players", "self.num_players == len(self.player_list) and "
@@ -233,7 +233,6 @@ def build():
     C.ext("Game.add_mode_event_handler", model=add_mode_handler,
           trusted_reason="Mode.add_mode_event_handler (C07): removed when the game mode stops")
 
-    C.ext("Game._player_adding_complete", model=common.noop, trusted_reason="completion of player_adding (below)")
     C.fn("Game.event_end_ball", params=dict(kwargs=Opaque("Kwargs")), ensures=["self._end_ball_event.flag"],
          modifies=["self._end_ball_event.flag"], raises={})
     C.fn("Game.event_end_game", params=dict(kwargs=Opaque("Kwargs")), ensures=["self.ending and self._end_ball_event.flag"],
@@ -318,7 +317,7 @@ def build():
             emit(I, "call:" + name, ending=I.read_field(g, "ending", heap=I.old_heap))
         return e
     RELY_MODS = ["self.ending", "self.slam_tilted", "self.player.extra_balls", "self.player_list.n",
-                 "self.num_players", "self._balls_in_play", "self._end_ball_event.flag"]
+                 "self.num_players", "self._balls_in_play", "self._end_ball_event.flag", "self._player_add_in_progress"]
     MONO = ("requests are never taken back", "implies(old(self.ending), self.ending) and "
                                              "implies(old(self.slam_tilted), self.slam_tilted)")
     SAMEP = ("the current player, their number and ball counter are not changed",
@@ -435,12 +434,16 @@ def build():
 
     # ---- adding players
     C.fn("Game.request_player_add", params=dict(kwargs=Opaque("Kwargs")), result=Bool,
-         ensures=[("P1: a player can only be added before the game is ending, below max_players and during ball 1; "
-                   "then (and only then) the request is put to the vote",
+         ensures=[("P1: a player can only be added before the game is ending, below max_players, during ball 1 and while "
+                   "NO earlier request is still in flight (an approved player is paid for only when player_added is handled: "
+                   "a second request in between would be judged on the same credits); then (and only then) the request is "
+                   "put to the vote",
                    "result == (not self.ending and len(self.player_list) < self.max_players and not "
-                   "(self.player is not None and self.player.ball > 1)) and "
-                   "(word('player_add_request') if result else n_posts() == 0)")],
-         modifies=[], raises={}, inline_calls=True)
+                   "(self.player is not None and self.player.ball > 1) and not old(self._player_add_in_progress)) and "
+                   "(word('player_add_request') if result else n_posts() == 0)"),
+                  ("P1b: an accepted request is in flight until it is denied or its player_added event has been queued",
+                   "self._player_add_in_progress == (True if result else old(self._player_add_in_progress))")],
+         modifies=["self._player_add_in_progress"], raises={}, inline_calls=True)
 
     def one_player_appended(I):
         evs = events_named(I, "player_list.append")
@@ -453,15 +456,42 @@ def build():
     C.helpers["n_new_players"] = lambda I: VInt(len(events_named(I, "Player()")))
     C.trace_helpers |= {"one_new_player_appended", "n_new_players"}
     C.fn("Game._player_add_request_complete", params=dict(ev_result=Bool, kwargs=Opaque("Kwargs")), result=Bool,
-         ensures=[("P2: a denied request changes nothing",
+         ensures=[("P2: a denied request changes nothing - and ends the request",
                    "implies(not ev_result, not result and n_posts() == 0 and n_new_players() == 0 and "
-                   "self.num_players == old(self.num_players))"),
+                   "self.num_players == old(self.num_players) and not self._player_add_in_progress)"),
                   ("P3: otherwise exactly one new Player with the next index is appended (numbers stay 1..n) and "
                    "player_will_add / player_adding carry the new number",
                    "implies(ev_result, result and one_new_player_appended() and self.num_players == "
                    "old(self.num_players) + 1 and word('player_will_add', 'player_adding') and "
                    "all_carry(0, 1, number=self.num_players))")],
-         modifies=["self.player_list.n", "self.num_players"], raises={})
+         modifies=["self.player_list.n", "self.num_players", "self._player_add_in_progress"], raises={})
+
+    def added_then_released(I, player):
+        """player_added (carrying the player, completion: _player_added) is POSTED - queued ahead of any later
+        player_add_request - and only then the request is no longer in flight; multiplayer_game follows exactly for player two"""
+        evs = events_named(I, "post")
+        if not evs or I.pyconst(I.force(evs[0].args["event"])) != "player_added":
+            return VBool(False)
+        kw = evs[0].args["kwargs"]
+        this = I.frames[0].env["self"].ref
+        multi = I.read_field(this, "num_players").t == 2
+        if len(evs) == 1:
+            rest = z3.Not(multi)
+        elif len(evs) == 2 and I.pyconst(I.force(evs[1].args["event"])) == "multiplayer_game":
+            rest = multi
+        else:
+            return VBool(False)
+        return VBool(z3.And(I.eq(kw.get("player", NONE), player), rest,
+                            z3.Not(I.truth(I.read_field(this, "_player_add_in_progress")))))
+    C.helpers["added_then_released"] = added_then_released
+    C.trace_helpers |= {"added_then_released"}
+    C.fn("Game._player_adding_complete", params=dict(player=ObjS("Player", C.classes["Player"].fields), kwargs=Opaque("Kwargs")),
+         ensures=[("P4: when the player_adding queue event is done, player_added is posted and the request is over; the first "
+                   "player becomes the current player and the game loop is told that a player exists",
+                   "added_then_released(player) and self._at_least_one_player_event.flag and "
+                   "(self.player is player if old(self.player) is None else self.player is old(self.player))")],
+         modifies=["self._player_add_in_progress", "self.player", "self._at_least_one_player_event.flag"], raises={},
+         no_inv=True)
 
     # ---- the loop
     def setup_done(I):
